@@ -482,8 +482,12 @@ func (c *Ctx) Finish(rule string, assumptions []string, minEvals int64) int {
 		ev.Tier = "quick"
 	}
 	b, _ := json.MarshalIndent(ev, "", " ")
-	os.MkdirAll(filepath.Join(c.Dir, "evidence"), 0o755)
-	os.WriteFile(filepath.Join(c.Dir, "evidence", c.Prop+".json"), b, 0o644)
+	evDir := filepath.Join(c.Dir, "evidence")
+	if d := os.Getenv("VERIF_EVIDENCE_DIR"); d != "" {
+		evDir = d // runs against a scratch tree (VERIF_REPO) never touch the committed evidence
+	}
+	os.MkdirAll(evDir, 0o755)
+	os.WriteFile(filepath.Join(evDir, c.Prop+".json"), b, 0o644)
 
 	// known findings: one line per entry that was observed
 	var ids []string
